@@ -1,6 +1,7 @@
 package main
 
 import (
+	"fmt"
 	"go/token"
 	"strings"
 
@@ -160,6 +161,43 @@ func init() {
 				return
 			}
 			r.Check(fa.HasFact(st, constName(v.Args[0]), ">", "1"), k, "stored total is guarded against zero", "the store is dominated by `product > 1` on the very term whose truncation is stored", "the take rate can store floor(x) for a product x that was not tested to exceed one: the staked total can reach zero while validator-share records stay (no reset on this path) and the next Delegate divides by zero", r.P(st))
+		}})
+
+	register(&Rule{ID: "C09.clockowner", Props: []string{"C09"}, Floor: 3,
+		Doc: "the take-rate clock (Params.LastTakeRateClaimTime) is written only by the take-rate hook and by genesis import; other parameter writers preserve the stored clock",
+		Run: func(e *Engine, r *RuleRun) {
+			n := 0
+			for _, c := range e.CallersOf("keeper.Keeper.SetParams") {
+				if c.Fn.Pkg.Pkg.Path() == pApp {
+					continue
+				}
+				n++
+				fk, fa := FuncKey(c.Fn), e.FA(c.Fn)
+				call := c.Instr.(ssa.CallInstruction)
+				a := argT(fa, call, 1)
+				base, clock := ovrGet(a, ".LastTakeRateClaimTime")
+				construct := "clock value stored by this parameter write"
+				switch {
+				case fk == "keeper.Keeper.SetLastRewardClaimTime":
+					ok := base != nil && strings.HasPrefix(stripOrd(base.String()), "keeper.Keeper.GetParams") && clock != nil && clock.String() == "$lastTime"
+					r.Check(ok, fk, construct, "stored parameters with only the clock replaced by the argument", "the clock setter stores "+a.String(), r.P(call))
+					for _, cc := range e.CallersOf("keeper.Keeper.SetLastRewardClaimTime") {
+						ck := FuncKey(cc.Fn)
+						if cc.Fn.Pkg.Pkg.Path() == pApp {
+							continue
+						}
+						r.Check(ck == "keeper.Keeper.DeductAssetsWithTakeRate", ck, "caller of the clock setter", "only the take-rate hook (clock values decided by C09.n / C09.clock)", "the take-rate clock is set from "+ck, r.P(cc.Instr))
+					}
+				case fk == "keeper.Keeper.InitGenesis" || strings.HasPrefix(fk, "migv5."):
+					r.OK(fk, construct, "genesis import / migration: the imported parameters are the state", r.P(call))
+				default:
+					// any other writer must keep the stored clock: the value written is the stored parameters with
+					// overrides that do not touch the clock
+					keeps := base != nil && strings.HasPrefix(stripOrd(base.String()), "keeper.Keeper.GetParams") && clock == nil
+					r.Check(keeps, fk, construct, "stored parameters with overrides other than the clock", "a parameter update stores a take-rate clock that comes from outside the take-rate hook ("+a.String()+"): a governance proposal written days earlier rewinds the clock when it executes (the elapsed intervals are charged a second time, and to stake deposited in between), a future value suspends the take rate, and a changed interval re-slices time that already elapsed", r.P(call))
+				}
+			}
+			r.Check(n >= 3, "-", "parameter writers found", fmt.Sprintf("%d callers of SetParams", n), fmt.Sprintf("only %d callers of SetParams found", n))
 		}})
 
 	register(&Rule{ID: "C09.clock", Props: []string{"C09"}, Floor: 1,
